@@ -282,7 +282,7 @@ func (p *Packer) packWalkFn(root, src, dst string, tarW *tar.Writer, meta *Meta,
 			}
 
 			// Attempt to follow the external target so we can copy its contents
-			resolved, err := p.resolveExternalLink(root, path)
+			resolved, err := p.resolveExternalLink(root, path, 0)
 			if err != nil {
 				return err
 			}
@@ -346,7 +346,13 @@ func (p *Packer) packWalkFn(root, src, dst string, tarW *tar.Writer, meta *Meta,
 // resolveExternalSymlink attempts to recursively follow target paths if we
 // encounter a symbolic link chain. It returns path information about the final
 // target pointing to a regular file or directory.
-func (p *Packer) resolveExternalLink(root string, path string) (*externalSymlink, error) {
+func (p *Packer) resolveExternalLink(root string, path string, hops int) (*externalSymlink, error) {
+	// Links pointing at each other would keep us here forever: give up after
+	// as many links as path/filepath.EvalSymlinks is prepared to follow.
+	if hops >= maxSymlinkHops {
+		return nil, fmt.Errorf("failed to resolve symlink %q: too many levels of symbolic links", path)
+	}
+
 	// Read the symlink file to find the destination.
 	target, err := os.Readlink(path)
 	if err != nil {
@@ -370,7 +376,7 @@ func (p *Packer) resolveExternalLink(root string, path string) (*externalSymlink
 
 	// Recurse if the symlink resolves to another symlink
 	if info.Mode()&os.ModeSymlink != 0 {
-		return p.resolveExternalLink(root, absTarget)
+		return p.resolveExternalLink(root, absTarget, hops+1)
 	}
 
 	return &externalSymlink{
@@ -379,6 +385,9 @@ func (p *Packer) resolveExternalLink(root string, path string) (*externalSymlink
 		info:      info,
 	}, err
 }
+
+// maxSymlinkHops is how many links of a chain resolveExternalLink follows.
+const maxSymlinkHops = 255
 
 // Unpack is used to read and extract the contents of a slug to the dst
 // directory, which must be an absolute path. Symlinks within the slug
